@@ -34,6 +34,7 @@ pub fn world() -> Hierarchy<Arc<Relation>> {
         ("id", DataType::integer_interval(0, 10000), Some(PK)), ("user_id", DataType::integer_interval(0, 1000), None),
         ("amount", DataType::float_interval(0., 100.), None), ("qty", DataType::integer_interval(0, 10), None),
         ("bal", DataType::integer_interval(-50, 20), None),   // a range whose negative side dominates
+        ("eps", DataType::float_interval(0., 1e-18), None),   // a tiny range: its clipping constant lies below the machine epsilon
     ].into_iter().collect::<qrlew::relation::Schema>()).size(10000).build();
     let products: Relation = Relation::table().name("products").schema(vec![
         ("pid", DataType::integer_interval(0, 100), Some(PK)), ("price", DataType::float_interval(0., 50.), None),
